@@ -41,6 +41,10 @@ pub enum SOp {
     Incr(u8),
     /// user assertion failing unconditionally
     Fail(u8),
+    /// user assertion failing inside an UnsafeCell::with_mut closure (cell 1)
+    FailInCell(u8),
+    /// user assertion failing inside AtomicUsize::with_mut (exclusive access through a private atomic)
+    FailInAtomicMut(u8),
     /// user assertion failing when the last recorded result of this thread equals v
     FailIfLast(u8, i64),
     Yield,
@@ -151,6 +155,8 @@ pub struct Machine<'a> {
     pub p: &'a SProg,
     /// notify_one wakes the queue head (completeness form) or any waiter (soundness form)
     pub fifo: bool,
+    /// Notify::wait may return spuriously once per object (an allowance loom models, never an obligation)
+    pub spurious: bool,
 }
 
 impl<'a> Machine<'a> {
@@ -497,7 +503,7 @@ impl<'a> Machine<'a> {
             SOp::NWait => {
                 if s.sub[t] == 0 {
                     // the single spurious return of the Notify object is a choice made at wait entry
-                    if !s.nspur {
+                    if self.spurious && !s.nspur {
                         let mut sp = s.clone();
                         sp.nspur = true;
                         sp.pc[t] += 1;
@@ -545,7 +551,7 @@ impl<'a> Machine<'a> {
                 adv(&mut ns);
                 v.push((ns, true, None));
             }
-            SOp::Fail(id) => {
+            SOp::Fail(id) | SOp::FailInCell(id) | SOp::FailInAtomicMut(id) => {
                 ns.failed = Some(id);
                 v.push((ns, true, None));
             }
@@ -596,8 +602,8 @@ impl RefResult {
 }
 
 /// Explicit-state search of every interleaving (completeness form: FIFO condvar).
-pub fn reference(p: &SProg, state_budget: usize) -> Option<RefResult> {
-    let m = Machine { p, fifo: true };
+pub fn reference(p: &SProg, state_budget: usize, spurious: bool) -> Option<RefResult> {
+    let m = Machine { p, fifo: true, spurious };
     let mut seen: HashSet<St> = HashSet::new();
     let mut out = RefResult::default();
     let mut stack = vec![m.init()];
@@ -643,7 +649,7 @@ pub fn reference(p: &SProg, state_budget: usize) -> Option<RefResult> {
 /// specification allows (soundness form: notify_one may wake any waiter). Set-of-states
 /// simulation because some steps (entering a wait) leave no event.
 pub fn replay(p: &SProg, log: &[(u8, u8, i64)], completed: bool) -> Result<(), String> {
-    let m = Machine { p, fifo: false };
+    let m = Machine { p, fifo: false, spurious: true };
     let mut cur: HashSet<St> = HashSet::new();
     cur.insert(m.init());
     let close = |set: &mut HashSet<St>| {
@@ -843,6 +849,11 @@ pub fn gen_sync(rng: &mut Rng, t: usize, k: usize, kinds: &str, o: GenOpts) -> S
                     'F' => {
                         if !o.fails {
                             continue;
+                        }
+                        if rng.chance(1, 6) {
+                            ops.push(if rng.chance(1, 2) { FailInCell(th as u8) } else { FailInAtomicMut(th as u8) });
+                            pushed = true;
+                            break;
                         }
                         match ops.last() {
                             Some(TryLock(_)) | Some(TryRead) | Some(TryWrite) if rng.chance(1, 2) => FailIfLast(th as u8, rng.below(2) as i64),
@@ -1135,6 +1146,15 @@ fn exec(p: &SProg, t: usize, o: &Objs, rx: Option<&loom::sync::mpsc::Receiver<u8
                 o.cells.0[c as usize].with(|p| unsafe { std::ptr::read_volatile(p) });
             }
             SOp::Fail(id) => panic!("{}{}", USER_PANIC_PREFIX, id),
+            SOp::FailInCell(id) => {
+                // a private cell: the access itself cannot race, the panic strikes while the write guard is alive
+                let c = loom::cell::UnsafeCell::new(0u64);
+                c.with_mut(|_| panic!("{}{}", USER_PANIC_PREFIX, id))
+            }
+            SOp::FailInAtomicMut(id) => {
+                let mut a = loom::sync::atomic::AtomicUsize::new(0);
+                a.with_mut(|_| panic!("{}{}", USER_PANIC_PREFIX, id))
+            }
             SOp::FailIfLast(id, v) => {
                 if last == Some(v) {
                     panic!("{}{}", USER_PANIC_PREFIX, id)
